@@ -23,6 +23,8 @@ from . import c15_domains as dm
 PROPERTY = 'C15'
 
 CTORS = ('from_value', 'from_children')
+
+
 def _directive_classes() -> tuple:
     """the members of the Directive union, read off File.from_value's signature"""
     ann = typing.get_type_hints(M.File.from_value)['directives']
@@ -156,7 +158,10 @@ def check_same_values(key: str, m: Any, parsed: Any, res: core.CaseResult, mini:
     cls = type(m)
     names = ['value'] if isinstance(getattr(cls, 'value', None), property) else []
     if hasattr(cls, 'from_value'):
-        names += [n for n in ctor_info(f'{cls.__name__}.from_value')[2] if n not in _NO_READBACK and hasattr(cls, n)]
+        # leading/trailing comments are left out: with comment items among the children their attribution is not
+        # determined by the text (the comment lines themselves are compared in document order by judge_model)
+        names += [n for n in ctor_info(f'{cls.__name__}.from_value')[2]
+                  if n not in _NO_READBACK and n not in ('leading_comment', 'trailing_comment') and hasattr(cls, n)]
     for name in names:
         try:
             a, b = _read_back(parsed, name), _read_back(m, name)
@@ -449,7 +454,10 @@ def main(run: core.Run) -> None:
         items += [{'k': key, 'ix': list(r)} for r in rows]
     run.log(f'{len(keys)} constructors, {len(items)} argument rows '
             f'({sum(1 for v in covered.values() if v.startswith("full"))} constructors in full)')
-    run.run_cases(run_case, items, 'constructor rows', chunk=500)
+    # interleave cheap and expensive constructors over the chunks handed to the worker processes
+    stride = 251
+    items = [items[j] for i in range(stride) for j in range(i, len(items), stride)]
+    run.run_cases(run_case, items, 'constructor rows', chunk=250)
 
     els = file_elements()
     fitems: list[dict] = [{'file': [], 'ctor': c} for c in CTORS]
